@@ -22,7 +22,7 @@ CHUNK = 6
 
 FILES = [c07.fspec("ML", 40, "UPPER", pat="ramp7", load=0x3000, exec_=0x3005), c07.fspec("ML", 300, "lower", pat="m00.p1", load=0x0100, exec_=0x0120),
          c07.fspec("BAS", 25, "BASICPG", "BAS"), c07.fspec("ASC", 600, "TEXT", "TXT", pat="55"), c07.fspec("ML", 2295, "EIGHTCHR", pat="ff"),
-         c07.fspec("ML", 10, "SP", pat="3c")]
+         c07.fspec("ML", 10, "SP", pat="3c"), c07.fspec("MLA", 33, "MLFLAG", pat="ramp", load=0x4000, exec_=0x4001)]
 
 
 def source_sets(tier):
@@ -76,7 +76,7 @@ def write_source(path, kind, fset, gaps=None):
         g = 33
         for s in specs:
             k = c07.kind_of(s)
-            stream = dskfs.make_stream({"ML": "ml", "BAS": "basic"}.get(k, "ascii"), C.pattern(s["n"], s["pat"]), s["load"], s["exec"])
+            stream = dskfs.make_stream(c07.stream_kind(k), C.pattern(s["n"], s["pat"]), s["load"], s["exec"])
             need = len(stream) // 2304 + 1
             chain = list(range(g, g + need))
             if len(fl) % 2:                      # every second file on a descending chain, the first one across the directory track
